@@ -530,6 +530,19 @@ def f64_bits(txt):
         raise TranslateError('not a float literal: %r' % txt)
 
 
+def byte_lit(x):
+    """a Rust u8 literal: 0x49, 73, 73u8, b'I', b'\\n', b'\\x49'"""
+    x = re.sub(r'_?u8$', '', x.strip())
+    if x.startswith("b'"):
+        c = x[2:-1]
+        if c.startswith('\\x'):
+            return int(c[2:], 16)
+        if c.startswith('\\'):
+            return {'n': 10, 't': 9, 'r': 13, '0': 0, '\\': 92, "'": 39, '"': 34}[c[1]]
+        return ord(c)
+    return int(x.replace('_', ''), 0)
+
+
 def int_const(txt, bits=64):
     t = resolve(txt).replace('_', '')
     table = {'i32::MAX': 2**31 - 1, 'i32::MIN': -2**31, 'i64::MAX': 2**63 - 1, 'i64::MIN': -2**63}
@@ -538,11 +551,10 @@ def int_const(txt, bits=64):
     return int(t, 0)
 
 
-def translate_consts(repo, names):
-    """constants the theorems rely on: ASCII_CHARS, boundary arrays, Default for Generator, clap defaults,
-    MutatorKind::all_mutators, TypeConfusion's opcode_to_type byte table"""
+def translate_ascii(repo, names):
+    """ASCII_CHARS of src/generator/source.rs"""
     rd = lambda rel: open(os.path.join(repo, rel)).read()
-    out = ["(* GENERATED on every run by tools/gen_src.py from source.rs, mod.rs, cli.rs, mutators/*.rs *)",
+    out = ["(* GENERATED on every run by tools/gen_src.py from src/generator/source.rs *)",
            "From Coq Require Import List NArith ZArith Bool.", "Import ListNotations.",
            "From PF Require Import Opcodes Config Front.", "", "Module Src.", "Local Open Scope N_scope."]
     # ASCII_CHARS
@@ -559,6 +571,16 @@ def translate_consts(repo, names):
             chars.append(ord(raw[i]))
             i += 1
     out.append("Definition ascii_chars : list N := [%s]." % '; '.join(map(str, chars)))
+    out += ["End Src.", ""]
+    return '\n'.join(out)
+
+
+def translate_front(repo, names):
+    """Default for Generator, clap defaults, MutatorKind::all_mutators and create"""
+    rd = lambda rel: open(os.path.join(repo, rel)).read()
+    out = ["(* GENERATED on every run by tools/gen_src.py from src/generator/mod.rs, src/cli.rs, src/mutators/mod.rs *)",
+           "From Coq Require Import List NArith ZArith Bool.", "Import ListNotations.",
+           "From PF Require Import Opcodes Config Front.", "", "Module Src.", "Local Open Scope N_scope."]
     # Default for Generator
     src = rd('src/generator/mod.rs')
     body = re.search(r'impl\s+Default\s+for\s+Generator\s*\{.*?fn\s+default\s*\(\s*\)\s*->\s*Self\s*\{\s*Self\s*\{(.*?)\}\s*\}\s*\}', src, re.S)
@@ -617,6 +639,16 @@ def translate_consts(repo, names):
         else:
             lines.append("  | K%s => Some (%s%s)" % (k, ctor[c], ' unsafe_mode' if flag else ''))
     out.append("Definition create (unsafe_mode : bool) (k : mkind) : option mutator :=\n  match k with\n%s\n  end." % '\n'.join(lines))
+    out += ["End Src.", ""]
+    return '\n'.join(out)
+
+
+def translate_mut(repo, names):
+    """the mutators' boundary arrays and TypeConfusion's opcode_to_type byte table"""
+    rd = lambda rel: open(os.path.join(repo, rel)).read()
+    out = ["(* GENERATED on every run by tools/gen_src.py from src/mutators/boundary.rs, src/mutators/typeconfusion.rs *)",
+           "From Coq Require Import List NArith ZArith Bool.", "Import ListNotations.",
+           "From PF Require Import Opcodes Config Front.", "", "Module Src.", "Local Open Scope N_scope."]
     # boundary arrays
     b = rd('src/mutators/boundary.rs').split('#[cfg(test)]')[0]
     arrs = re.findall(r'let\s+boundaries\s*=\s*\[(.*?)\]\s*;', b, re.S)
@@ -632,8 +664,9 @@ def translate_consts(repo, names):
     body = fn_body(t, 'opcode_to_type')
     tnum = {'Int': 1, 'Float': 2, 'String': 3, 'Bytes': 4, 'List': 5, 'Dict': 6, 'Tuple': 7, 'None': 8, 'Bool': 9}
     conds = []
-    for pats, ty in re.findall(r'((?:0x[0-9a-fA-F]+\s*\|?\s*)+)=>\s*Some\(\s*StackType::(\w+)\s*\)', re.sub(r'//[^\n]*', '', body)):
-        bs = [int(x, 16) for x in re.findall(r'0x[0-9a-fA-F]+', pats)]
+    LIT = r"(?:0x[0-9a-fA-F_]+|\d[\d_]*|b'(?:\\\\x[0-9a-fA-F]{2}|\\\\.|[^'\\\\])')(?:_?u8)?"
+    for pats, ty in re.findall(r'((?:%s\s*\|?\s*)+)=>\s*Some\(\s*StackType::(\w+)\s*\)' % LIT, re.sub(r'//[^\n]*', '', body)):
+        bs = [byte_lit(x) for x in re.findall(LIT, pats)]
         conds.append((bs, tnum[ty]))
     if not conds or not re.search(r'_\s*=>\s*None', body):
         raise TranslateError('opcode_to_type: unexpected shape')
@@ -704,7 +737,7 @@ def main():
     os.makedirs(out, exist_ok=True)
     names = cpython_names()
     status = 0
-    for fname, fn in (('SrcOpcodes.v', translate_opcodes), ('SrcCanEmit.v', translate_can_emit), ('SrcConsts.v', translate_consts), ('SrcStdlib.v', translate_stdlib)):
+    for fname, fn in (('SrcOpcodes.v', translate_opcodes), ('SrcCanEmit.v', translate_can_emit), ('SrcAscii.v', translate_ascii), ('SrcFront.v', translate_front), ('SrcMut.v', translate_mut), ('SrcStdlib.v', translate_stdlib)):
         try:
             text = fn(repo, names)
         except (TranslateError, KeyError, ValueError, IndexError) as e:
